@@ -567,6 +567,33 @@ func checkDptGlobalsReadOnly(c *Check, p *Program, registered map[*types.Named]s
 						if builtinName(y) == "delete" || builtinName(y) == "clear" {
 							bad = "map is modified by " + builtinName(y) + " in " + FuncName(fn)
 						}
+						if (builtinName(y) == "append" || builtinName(y) == "copy") && y.Common().Args[0] == ssa.Value(x) && !inInit {
+							bad = "the variable's backing array is written by " + builtinName(y) + " in " + FuncName(fn)
+						}
+					case *ssa.Slice:
+						// a re-slice shares the backing array: appending to / storing through it writes shared state
+						if !inInit {
+							for _, su := range usesOf(y) {
+								switch z := su.(type) {
+								case *ssa.Call:
+									if (builtinName(z) == "append" || builtinName(z) == "copy") && z.Common().Args[0] == ssa.Value(y) {
+										bad = "a re-slice of the variable is written by " + builtinName(z) + " in " + FuncName(fn)
+									}
+								case *ssa.Phi, *ssa.Store, *ssa.Return, *ssa.MakeInterface:
+									bad = "a re-slice of the variable escapes in " + FuncName(fn) + " (shared backing array)"
+								case *ssa.IndexAddr:
+									for _, ssu := range usesOf(z) {
+										if st, ok := ssu.(*ssa.Store); ok && st.Addr == ssa.Value(z) {
+											bad = "an element of the variable is assigned through a re-slice in " + FuncName(fn)
+										}
+									}
+								}
+							}
+						}
+					case *ssa.Return:
+						if _, isSl := x.Type().Underlying().(*types.Slice); isSl && !inInit {
+							bad = "the slice itself is returned by " + FuncName(fn) + " (callers can modify shared state)"
+						}
 					}
 				}
 			case *ssa.Store:
